@@ -21,6 +21,7 @@ type State struct {
 	nowSeq  int
 	lastNow *Term
 	model   Model // a model of pc (counterexample cache), or nil
+	views   map[ObjID]bool // read-only array copies made by slice-to-array-pointer conversions
 }
 
 type regionRec struct {
@@ -51,6 +52,12 @@ func (s *State) fork() *State {
 		observe: s.observe[:len(s.observe):len(s.observe)],
 		nowSeq:  s.nowSeq,
 		lastNow: s.lastNow,
+	}
+	if len(s.views) > 0 {
+		n.views = make(map[ObjID]bool, len(s.views))
+		for k, v := range s.views {
+			n.views[k] = v
+		}
 	}
 	if s.model != nil {
 		n.model = make(Model, len(s.model))
@@ -189,6 +196,9 @@ func (e *Engine) store(s *State, p PtrV, v Value) {
 	}
 	if e.storeHook != nil {
 		e.storeHook(s, p)
+	}
+	if s.views[p.Obj] {
+		panic(unsupported("store through an array pointer obtained from a sub-slice"))
 	}
 	root := e.obj(s, p.Obj)
 	s.heap[p.Obj] = e.setPath(root, p.Path, v)
@@ -492,6 +502,13 @@ func (e *Engine) mergeStates(a, b *State, extra func(g *Term) bool) (*State, boo
 		nowSeq:  a.nowSeq,
 		lastNow: a.lastNow,
 		model:   a.model,
+		views:   a.views,
+	}
+	for k, v := range b.views {
+		if out.views == nil {
+			out.views = map[ObjID]bool{}
+		}
+		out.views[k] = v
 	}
 	if out.model == nil {
 		out.model = b.model
@@ -534,6 +551,7 @@ func sameValue(a, b Value) bool {
 // ---------------------------------------------------------------- function info (RPO, liveness)
 
 type fnInfo struct {
+	order   map[ssa.Value]int
 	rpo     map[*ssa.BasicBlock]int
 	liveIn  map[*ssa.BasicBlock]map[ssa.Value]bool
 	hasLoop bool
@@ -663,6 +681,7 @@ type Frame struct {
 	backedges int
 	defers    []deferred
 	depth     int
+	entryNext ObjID
 }
 
 func (f *Frame) clone() *Frame {
@@ -752,4 +771,49 @@ func (q *pqueue) popGroup() []item {
 	g := append([]item{}, q.items[:n]...)
 	q.items = q.items[n:]
 	return g
+}
+
+// whyNoMerge explains (for diagnostics) why two items at the same control point did not merge.
+func (e *Engine) whyNoMerge(a, b item) string {
+	g := e.tc.Var("dbg!g", SBool)
+	if len(a.fr.regs) != len(b.fr.regs) {
+		return "different register sets"
+	}
+	for k, va := range a.fr.regs {
+		vb, ok := b.fr.regs[k]
+		if !ok {
+			return "register " + k.Name() + " missing"
+		}
+		if _, ok := e.mergeVal(g, va, vb); !ok {
+			return "register " + k.Name() + ": " + e.show(va) + " vs " + e.show(vb)
+		}
+	}
+	for id, va := range a.st.heap {
+		vb, ok := b.st.heap[id]
+		if !ok {
+			if bv, ok2 := e.base[id]; ok2 {
+				vb = bv
+			} else {
+				continue
+			}
+		}
+		if sameValue(va, vb) {
+			continue
+		}
+		if _, ok := e.mergeVal(g, va, vb); !ok {
+			return fmt.Sprintf("heap object %d: %s vs %s", id, e.show(va), e.show(vb))
+		}
+	}
+	if len(a.st.observe) != len(b.st.observe) {
+		return "observations differ"
+	}
+	if len(a.st.tags) != len(b.st.tags) {
+		return "nondet tag counters differ"
+	}
+	for k, v := range a.st.tags {
+		if b.st.tags[k] != v {
+			return "nondet tag counter " + k
+		}
+	}
+	return "other (regions/mutexes/defers)"
 }
